@@ -183,7 +183,8 @@ pub fn check(id: &str, tier: &str, seed: u64) -> Option<i32> {
             Some(code)
         }
         "C06" => {
-            let cases = if thorough { 80_000 } else { 8000 };
+            let stress_only = std::env::var("LSMV_C06_STRESS_ONLY").is_ok();
+            let cases = if stress_only { 16 } else if thorough { 80_000 } else { 8000 };
             let out = explore_generic(
                 || crate::sched::strategy(if thorough { 60 } else { 40 }, false),
                 cases,
@@ -200,7 +201,7 @@ pub fn check(id: &str, tier: &str, seed: u64) -> Option<i32> {
             let mut extra = json!({"distinct_interleavings": traces});
             let mut out = out;
             out.hist.retain(|k, _| !k.starts_with("trace."));
-            if thorough && out.failure.is_none() {
+            if (thorough || stress_only) && out.failure.is_none() {
                 // free-running stress with the same exact oracle (replay cannot be guaranteed to re-fail)
                 let st = explore_generic(
                     || crate::sched::strategy(60, true),
